@@ -37,6 +37,9 @@ type StoreFault struct {
 	Missing bool
 	// NotObtained: OBTAIN answers ErrLockNotObtained without trying.
 	NotObtained bool
+	// Hang: the operation neither succeeds nor fails; it returns the context's error once the
+	// caller's context is done (PING only).
+	Hang bool
 }
 
 // Redis is miniredis plus the hookable client that replaces the store's own.
@@ -237,6 +240,10 @@ func (h *hookClient) Del(ctx context.Context, key string) error {
 
 func (h *hookClient) Ping(ctx context.Context) error {
 	_, f := h.r.begin("PING", "")
+	if f != nil && f.Hang {
+		<-ctx.Done()
+		return ctx.Err()
+	}
 	if f != nil && f.BeforeErr != nil {
 		return f.BeforeErr
 	}
